@@ -10,6 +10,12 @@
    occur; as in C10, transitivity of the code's comparison iri_eqb is NOT proved in the framework and stays a
    hypothesis (checked on the id pool of the generated cases on every run).
 
+   Whole values (section 4; lemmas in Proofs/FlattenIdemP.v): what every flattened position holds afterwards
+   (C16_value), where its entries and IRIs come from (C16_entries, C16_no_new_iri), and "flattening twice equals
+   flattening once" for FlattenItemCollection, Flatten, the four Flatten*Properties and FlattenProperties
+   (C16_idempotent and its variants), on a domain that is stated there, is decidable (fields_goodb), and whose clauses are each
+   necessary (section 7).
+
    What is outside: collection OBJECTS (Collection, OrderedCollection and their pages) in replies / likes /
    shares / attributedTo are opened by Flatten and replaced by the flattened list of their items (nil when they
    have none), not by their own id - the property's first clause speaks of non-collection objects only; the
@@ -17,7 +23,7 @@
    judge it.  Value-form receivers and FlattenProperties on a struct whose Type names another class go through
    reflectItemToType and are not modelled. *)
 From AP.Model Require Import Prelude Vocab Pred IriEq Recip Flatten.
-From AP.Proofs Require Import IriEqP RecipP FlattenP.
+From AP.Proofs Require Import IriEqP RecipP FlattenP FlattenIdemP.
 
 (* ---- 1. one item: replaced by an IRI equal to its id exactly when it is an object with an id ---- *)
 Theorem C16_item : forall i,
@@ -68,13 +74,107 @@ Proof. exact positions_match. Qed.
 Theorem C16_positions_subset : forall k f, flattened_in k f = true -> flattened_in FKActivity f = true.
 Proof. exact positions_subset. Qed.
 
-(* ---- 4. idempotence.  PARTIAL: proved for one item.  The full statement
-        forall k fs fs', flatten_fields eqv k fs = Ok fs' -> flatten_fields eqv k fs' = Ok fs'
-   additionally needs keep_first eqv [] (map flat_item (keep_first eqv [] l)) = map flat_item (keep_first eqv [] l)
-   (flat_item preserves keys; first mentions have no earlier equivalent) and the Normalize shapes; not proved.
-   The native evaluation applies every function twice on every evaluated input. ---- *)
-Theorem C16_idempotent_partial : forall i, flat_item (flat_item i) = flat_item i.
+(* ---- 4. whole values.  The statements about lists carry the hypotheses of C16_refines_list (eqv symmetric
+   and transitive on a set D that holds the ids compared by the de-duplication: without them the literal index
+   deletion of ItemCollectionDeduplication can delete a wrong entry or panic - C10's subject).
+
+   The DOMAIN of the whole-value statements (fields_good): in replies / shares / likes / attributedTo - the four
+   positions that go through Flatten, which opens a list, de-duplicates, flattens and hands a list of ONE member
+   back as that member (Normalize) - the value is flat_ok: nil-like, or a single item whose id is not "-" (the
+   nil IRI), or a list / opened collection all of whose members are `plain`: the untyped nil, or neither
+   nil-like, nor themselves a list / opened collection, nor carrying the id "-".  Outside this domain flattening
+   twice does NOT equal flattening once, in the model and in the code alike (C16_twice_differs_* below; the
+   harness evaluates the same witnesses on the real code).  They are outside the property's quantifier
+   ("embedded items with and without ids, value and pointer forms, lists with duplicates"): a list inside a list,
+   a typed nil pointer or an empty IRI as the only member of a list (C20's subject), the id "-".
+   The other eleven positions (FlattenToIRI and FlattenItemCollection) carry no condition besides D. ---- *)
+
+(* one item *)
+Theorem C16_idempotent_item : forall i, flat_item (flat_item i) = flat_item i.
 Proof. exact flat_item_idem. Qed.
+
+(* FlattenItemCollection twice = once (to bto cc bcc audience), any members *)
+Theorem C16_idempotent_list : forall (eqv : bytes -> bytes -> bool) (D : bytes -> Prop),
+  (forall a b, D a -> D b -> eqv a b = eqv b a) ->
+  (forall a b c, D a -> D b -> D c -> eqv a b = true -> eqv b c = true -> eqv a c = true) ->
+  forall c c', Forall D (opt_keys c) -> flatten_items eqv c = Ok c' ->
+  flatten_items eqv c' = Ok c' /\ Forall D (opt_keys c').
+Proof. exact flatten_items_idem. Qed.
+Theorem C16_list_spec_idempotent : forall eqv c, flat_list_spec eqv (flat_list_spec eqv c) = flat_list_spec eqv c.
+Proof. exact flat_list_spec_idem. Qed.
+
+(* Flatten on its whole domain: what it returns (nil -> nil; list or opened collection -> the list specification,
+   normalized; an unopened collection struct stays; a single item -> flat_item) ... *)
+Theorem C16_flatten_value : forall (eqv : bytes -> bytes -> bool) (D : bytes -> Prop),
+  (forall a b, D a -> D b -> eqv a b = eqv b a) ->
+  (forall a b c, D a -> D b -> D c -> eqv a b = true -> eqv b c = true -> eqv a c = true) ->
+  forall i, flat_ok i = true -> Forall D (flat_keys i) -> flatten eqv i = Ok (flat_multi eqv i).
+Proof. exact flatten_multi. Qed.
+(* ... and Flatten twice = once; the result is again inside the domain *)
+Theorem C16_idempotent_flatten : forall (eqv : bytes -> bytes -> bool) (D : bytes -> Prop),
+  (forall a b, D a -> D b -> eqv a b = eqv b a) ->
+  (forall a b c, D a -> D b -> D c -> eqv a b = true -> eqv b c = true -> eqv a c = true) ->
+  forall i i', flat_ok i = true -> Forall D (flat_keys i) -> flatten eqv i = Ok i' ->
+  flatten eqv i' = Ok i' /\ flat_ok i' = true /\ Forall D (flat_keys i').
+Proof. exact flatten_idem. Qed.
+
+(* Flatten{Object,Actor,IntransitiveActivity,Activity}Properties on a whole value: they do not fail, every
+   flattened position holds afterwards what the specification says (spec_out: flat_item / flat_multi /
+   flat_list_spec of what it held before; `fcanon`: a zero value is an unset field), everything else is
+   unchanged - the value-level form of C16_item, C16_refines_list, C16_flatten_* and C16_frame together *)
+Theorem C16_value : forall (eqv : bytes -> bytes -> bool) (D : bytes -> Prop),
+  (forall a b, D a -> D b -> eqv a b = eqv b a) ->
+  (forall a b c, D a -> D b -> D c -> eqv a b = true -> eqv b c = true -> eqv a c = true) ->
+  forall k fs, fields_good D k fs ->
+  exists fs', flatten_fields eqv k fs = Ok fs' /\
+    (forall s, In s (steps_of k) -> getf (step_fid s) fs' = fcanon (spec_out eqv s (getf (step_fid s) fs))) /\
+    (forall f, flattened_in k f = false -> getf f fs' = getf f fs).
+Proof. exact flatten_fields_value. Qed.
+
+(* "No IRI appears in the result that was not an id or IRI inside the original", whole value: every entry of a
+   flattened position afterwards (the item, or the members of the list it holds) is the untyped nil, an entry of
+   the same position before (in_entries: the item, the members of its list or of the collection Flatten opens),
+   or flat_item of one; hence every IRI afterwards was an IRI entry, or is the id of an entry, of that position *)
+Theorem C16_entries : forall (eqv : bytes -> bytes -> bool) (D : bytes -> Prop),
+  (forall a b, D a -> D b -> eqv a b = eqv b a) ->
+  (forall a b c, D a -> D b -> D c -> eqv a b = true -> eqv b c = true -> eqv a c = true) ->
+  forall k fs fs', fields_good D k fs -> flatten_fields eqv k fs = Ok fs' ->
+  forall s, In s (steps_of k) -> forall y, In y (out_entries s (getf (step_fid s) fs')) ->
+  y = INil \/ exists x, In x (in_entries s (getf (step_fid s) fs)) /\ (y = x \/ y = flat_item x).
+Proof. intros eqv D Hs Ht. exact (flatten_fields_entries eqv D Hs Ht). Qed.
+Theorem C16_no_new_iri : forall (eqv : bytes -> bytes -> bool) (D : bytes -> Prop),
+  (forall a b, D a -> D b -> eqv a b = eqv b a) ->
+  (forall a b c, D a -> D b -> D c -> eqv a b = true -> eqv b c = true -> eqv a c = true) ->
+  forall k fs fs', fields_good D k fs -> flatten_fields eqv k fs = Ok fs' ->
+  forall s, In s (steps_of k) -> forall p i, In (IIri p i) (out_entries s (getf (step_fid s) fs')) ->
+  exists x, In x (in_entries s (getf (step_fid s) fs)) /\ (x = IIri p i \/ (p = false /\ i = link_of x)).
+Proof. intros eqv D Hs Ht. exact (flatten_fields_no_new_iri eqv D Hs Ht). Qed.
+
+(* "flattening twice equals flattening once", whole value, all four functions *)
+Theorem C16_idempotent : forall (eqv : bytes -> bytes -> bool) (D : bytes -> Prop),
+  (forall a b, D a -> D b -> eqv a b = eqv b a) ->
+  (forall a b c, D a -> D b -> D c -> eqv a b = true -> eqv b c = true -> eqv a c = true) ->
+  forall k fs fs', fields_good D k fs ->
+  flatten_fields eqv k fs = Ok fs' -> flatten_fields eqv k fs' = Ok fs'.
+Proof. exact flatten_fields_idem. Qed.
+
+(* FlattenProperties (dispatch on the Type string): twice = once *)
+Theorem C16_idempotent_properties : forall (eqv : bytes -> bytes -> bool) (D : bytes -> Prop),
+  (forall a b, D a -> D b -> eqv a b = eqv b a) ->
+  (forall a b c, D a -> D b -> D c -> eqv a b = true -> eqv b c = true -> eqv a c = true) ->
+  forall x x', props_good D x -> flatten_properties eqv x = Ok x' -> flatten_properties eqv x' = Ok x'.
+Proof. exact flatten_properties_idem. Qed.
+
+(* the instance the correspondence check runs (IRI.Equals(., ., false)); ids from a pool on which the comparison
+   was evaluated to be symmetric and transitive (Cases_C16_pool does that on every run); fields_goodb is the
+   decidable form of the domain *)
+Theorem C16_idempotent_code : forall dom k fs fs',
+  sym_on ideq dom = true -> trans_on ideq dom = true -> fields_goodb dom k fs = true ->
+  flatten_fields_m k fs = Ok fs' -> flatten_fields_m k fs' = Ok fs'.
+Proof. exact flatten_fields_idem_pool. Qed.
+Theorem C16_domain_decidable : forall dom k fs,
+  fields_goodb dom k fs = true -> fields_good (fun a => In a dom) k fs.
+Proof. exact fields_goodb_spec. Qed.
 
 (* ---- 5. defects of the pinned tree (repaired by three fix: commits) ---- *)
 Definition ida := B "https://example.com/actors/alice".
@@ -177,3 +277,41 @@ Proof.
   split; [vm_compute; reflexivity|]. split; [vm_compute; reflexivity|].
   split; eexists; split; vm_compute; reflexivity.
 Qed.
+
+(* the example value lies in the domain of the whole-value theorems, with ids from a pool on which
+   IRI.Equals(., ., false) is symmetric and transitive; flattening its result again changes nothing *)
+Definition ex16_pool : list bytes :=
+  [ida; B "https://example.com/actors/bob"; B "http://EXAMPLE.com/actors/alice/"; B "https://example.com/activities/1"].
+Example C16_example_domain :
+  sym_on ideq ex16_pool = true /\ trans_on ideq ex16_pool = true /\ fields_goodb ex16_pool FKActivity ex16 = true.
+Proof. repeat split; vm_compute; reflexivity. Qed.
+Example C16_example_twice :
+  obind (flatten_fields_m FKActivity ex16) (flatten_fields_m FKActivity) = flatten_fields_m FKActivity ex16.
+Proof. vm_compute. reflexivity. Qed.
+
+(* ---- 7. outside the domain flattening twice differs from flattening once: each clause of `plain` / flat_ok is
+   necessary.  harness/c16.go evaluates these four on the real code (Cases_C16_twice, labels "witness"). ---- *)
+(* a list inside a list in attributedTo: the inner list is handed back, the second pass opens it *)
+Theorem C16_twice_differs_nested_list :
+  flat_ok (IItems false (Some [IItems false (Some [objA; actB])])) = false /\
+  flatten_m (IItems false (Some [IItems false (Some [objA; actB])])) = Ok (IItems false (Some [objA; actB])) /\
+  flatten_m (IItems false (Some [objA; actB]))
+  = Ok (IItems false (Some [IIri false ida; IIri false (B "https://example.com/actors/bob")])).
+Proof. repeat split; vm_compute; reflexivity. Qed.
+(* a typed nil pointer as the only member: handed back as it is, the second pass returns the untyped nil *)
+Theorem C16_twice_differs_typed_nil_member :
+  flat_ok (IItems false (Some [ITNil KObject])) = false /\
+  flatten_m (IItems false (Some [ITNil KObject])) = Ok (ITNil KObject) /\ flatten_m (ITNil KObject) = Ok INil.
+Proof. repeat split; vm_compute; reflexivity. Qed.
+(* the id "-" is the nil IRI: the object becomes the IRI "-", which the second pass takes for nil *)
+Theorem C16_twice_differs_dash_id :
+  flat_ok (IObj true KObject [(F_ID, FStr (B "-")); (F_Type, FStr (B "Note"))]) = false /\
+  flatten_m (IObj true KObject [(F_ID, FStr (B "-")); (F_Type, FStr (B "Note"))]) = Ok (IIri false (B "-")) /\
+  flatten_m (IIri false (B "-")) = Ok INil.
+Proof. repeat split; vm_compute; reflexivity. Qed.
+(* an id-less collection object as the only member: handed back, then opened *)
+Definition coll_idless := IObj true KCollection [(F_Type, FStr (B "Collection")); (F_Items, FItems (Some [objA]))].
+Theorem C16_twice_differs_collection_member :
+  flat_ok (IItems false (Some [coll_idless])) = false /\
+  flatten_m (IItems false (Some [coll_idless])) = Ok coll_idless /\ flatten_m coll_idless = Ok (IIri false ida).
+Proof. repeat split; vm_compute; reflexivity. Qed.
